@@ -23,7 +23,7 @@ ASSUMPTIONS = ['str with bytes is outside the claim (statement)', 'tuples only a
 KINDS = tuple(k for k in gen.KINDS_WIDE)
 MISSING_OK = ('float16', 'float32', 'float64', 'complex64', 'complex128', 'object', 'M8[Y]', 'M8[M]', 'M8[D]', 'M8[h]', 'M8[s]', 'M8[ns]', 'm8[D]', 'm8[s]')
 
-OPS = ('f_fillna_dir1', 's_reindex', 's_shift', 's_concat', 's_assign_el', 's_assign_arr', 's_assign_series', 's_assign_series_partial', 'f_assign_series_partial', 's_fillna', 's_fillna_series', 's_overlay', 's_from_items', 's_from_list',
+OPS = ('f_fillna_dir1', 's_reindex', 's_shift', 's_concat', 's_insert', 's_assign_el', 's_assign_arr', 's_assign_series', 's_assign_series_partial', 'f_assign_series_partial', 's_fillna', 's_fillna_series', 's_overlay', 's_from_items', 's_from_list',
        'f_reindex', 'f_shift', 'f_concat0', 'f_concat1', 'f_assign_el', 'f_assign_arr', 'f_assign_series', 'f_assign_bloc', 'f_fillna', 'f_fillna_sided',
        'f_row', 'f_values', 'f_iter_array1', 'f_from_records', 'f_from_records_mixed', 'f_from_dict_records', 'f_from_items', 'f_insert', 'f_overlay',
        'go_setitem', 'go_extend', 'ix_append', 'ix_fillna', 'f_relabel_shift', 'f_unset_index')
@@ -130,6 +130,15 @@ def check(case):
         elif op == 's_concat':
             r = sf.Series.from_concat((sf.Series(a, index=['a%d' % q for q in idx]), sf.Series(b, index=['b%d' % q for q in idx])))
             _series_cells(r, la + lb, op, cells)
+        elif op == 's_insert':
+            # a Series of another dtype inserted before / after a position: both sets of values are kept as they are
+            p = i % n
+            sa = sf.Series(a, index=['a%d' % q for q in idx])
+            sb = sf.Series(b, index=['b%d' % q for q in idx])
+            after = bool(j % 2)
+            r = (sa.insert_after if after else sa.insert_before)(sf.ILoc[p] if j % 4 < 2 else 'a%d' % p, sb)
+            at = p + 1 if after else p
+            _series_cells(r, la[:at] + lb + la[at:], op, cells)
         elif op == 's_assign_el':
             p = i % n
             r = sf.Series(a).assign.iloc[p](eb)
